@@ -211,6 +211,11 @@ class Worker:
         except Exception:
             pass
         tail = self.stderr_tail()
+        # sanitizer reports can be very long: keep the head of the report too, it names the error
+        full = self.stderr_tail(2 << 20)
+        m = re.search(r"ERROR: (AddressSanitizer|LeakSanitizer): [^\n]*", full)
+        if m and m.group(0) not in tail:
+            tail = m.group(0) + "\n...\n" + tail
         try:
             self.errf.close()
         except Exception:
@@ -288,6 +293,8 @@ def classify_death(rc, tail):
         return "alloc"
     if "ERROR: AddressSanitizer" in tail or "ERROR: LeakSanitizer" in tail:
         m = re.search(r"ERROR: (AddressSanitizer|LeakSanitizer): ([A-Za-z0-9_\-]+)", tail)
+        if m and m.group(2) == "stack-overflow":
+            return "stack-overflow"
         return "sanitizer(%s)" % (m.group(2) if m else "report")
     if "memory allocation of" in tail and "failed" in tail:
         return "alloc"
